@@ -25,29 +25,31 @@ from ..core import Ctx
 
 ID = "C04"
 LEVEL = "proof"
+STRENGTH = "partial"      # some clauses are proved only under a named guard or rest on oracle/tie only: see LEVEL_TEXT
 ENGINES = ["lean-model", "purediff"]
 LEVEL_TEXT = (
-    "Lean theorems for ALL well-formed JSON values (mutual structural induction over J, no depth/size bound), full strength: "
-    "diff_self_empty; diff_empty_iff (diff a b = [] iff a ≈ b, ≈ = Python == modulo null-valued object keys); apply_diff; "
-    "reduce_exact (reduce (diff a b) path = diff (a at path) (b at path), as lists, every path) + reduce_apply / reduce_empty_iff; "
-    "essence, every storage configuration and body: status_invisible, system_metadata_invisible (incl. finalizers), "
-    "marked_annotation_invisible (one key under a marked prefix), prefix_group_invisible (a whole operator's batch under one prefix) "
-    "with first_custom_prefix_write_invisible (records + kopf-managed marker onto existing annotations) and "
-    "first_annotation_write_invisible (annotations mapping absent -> present); payload_exact, label_exact, annotation_exact "
-    "(closed form of the metadata stanza through all stages incl. Multi and progress clear) and change_detected / "
-    "payload_change_detected / label_change_detected / ordinary_annotation_change_detected (changed, added, removed), essence_wf, "
-    "essence_injective_on_payload; keys_depend_only_on_body (make_keys is a function of the body served). "
-    "own_key_unmarked_invisible (an own exact key — as make_keys forms it for this body, -ofDRS mark included — or a key under a "
-    "progress prefix, under an UNMARKED prefix, is invisible: diff of the essences empty; every diff-base configuration incl. "
-    "MultiDiffBaseStorage as repaired in kopf 55b75e2, instance multi_drs_own_key_invisible = the former witness of C04-F9, now "
-    "fixed and kept as a regression case). Proved negations: bool_int_witness (F7), "
-    "extra_status_witness (F8, guards ExtraAvoids/ExtraAnnOK/MetaPlain), marker_first_write_witness, null_absent_witness. "
-    "Oracle/tie only (no theorem): label/annotation exactness when a handler field or an ignored/storage field starts with "
-    "`metadata` (outside MetaPlain); the unmarked-prefix route when the annotations mapping is absent before the write. "
-    "Tie: differential run of the real diffs.diff/reduce, DiffBaseStorage.build (+Annotations/Status/Multi), ProgressStorage.clear "
-    "(Annotations/Status/NoWrite/Multi/Smart) and make_keys, built with the real constructors, against the model — on generated "
-    "bodies, on the bodies after every own write, and on ONE shared storage instance serving sequences of objects of mixed "
-    "marking classes; the Lean applier and ≈ are tied to the oracle's Python applier and equivalence as well.")
+    "PARTIAL. Proved without guard, for ALL well-formed JSON values (mutual structural induction, no bound): diff_self_empty; "
+    "diff_empty_iff (diff a b = [] iff a ≈ b; ≈ = Python == modulo null-valued keys — both deviations from JSON equality are "
+    "findings: F7 bool/int, C04-F10 null/absent, proved witnesses); apply_diff; reduce_exact (reduce (diff a b) path = diff (a at "
+    "path) (b at path), every path) + reduce_apply / reduce_empty_iff; essence_wf; change_detected. "
+    "Proved under a guard that IS the gap: status_invisible / status_removal_invisible (handler fields keep their own values; F8 = "
+    "extra_status_witness), system_metadata_invisible (labels/annotations/ownerReferences unchanged; ownerReferences = C04-N2, "
+    "adoption_loses_last_handled_witness), kopf_storage_write_invisible_partial + store_marker_spec (writes of a Kopf annotations "
+    "storage are invisible iff its prefix gets the marker or is kopf.zalando.org/sub-domain; C04-N1 = kopf_prefix_unmarked_witness), "
+    "marked_annotation_invisible, prefix_group_invisible, first_custom_prefix_write_invisible, first_annotation_write_invisible "
+    "(reserved-prefix hypothesis; its failure = C04-F11, marker_first_write_witness), touch_field_witness (C04-N3). "
+    "Proved under a guard BROADER than any known gap: payload_exact / essence_injective_on_payload / payload_change_detected "
+    "(AvoidKey), label_exact / annotation_exact / label_change_detected / ordinary_annotation_change_detected (MetaPlain), "
+    "own_key_unmarked_invisible_partial (MetaPlain, kind present, annotations present before the write; every diff-base "
+    "configuration incl. Multi after 55b75e2, instance multi_drs_own_key_invisible). "
+    "Oracle/tie only (NO theorem): the composition fetch∘store (`diff(clear(fetch(body')), clear(build(body')))` after a real "
+    "store/purge/touch: only key names and the marker are modelled, not the JSON encoding), what handlers receive in a cycle "
+    "(real process_resource_causes with several handlers, field= and whole-object mixed, all lifecycles), statelessness of the "
+    "storage objects (shared-instance sequences), everything outside MetaPlain, an `old` built under another handler set. "
+    "Tie: differential run of the real diffs.diff/reduce, DiffBaseStorage.build (+Annotations/Status/Multi), ProgressStorage.clear, "
+    "make_keys and _store_marker, built with the real constructors, against the model — on generated bodies, on the bodies after "
+    "every own write and after the writes of OTHER Kopf operators' real storages (arbitrary prefixes), on one shared storage "
+    "instance serving sequences of objects; handlers' kwargs in real cycles are tied to the model's reduce.")
 TIE = ("D (differential: real diff/reduce/build/clear/make_keys vs. the Lean model, incl. post-write bodies and shared-storage "
        "sequences) + constants read from the AST")
 THEOREMS: list[tuple[str, str]] = []     # filled below from THEOREM_NAMES
@@ -63,9 +65,13 @@ TRUSTED = ["harness/props/c04.py: the Python oracle (own applier, own RFC 7386 m
            "blake2b key suffixes are computed by hashlib in the harness and passed to the model as a table"]
 ASSUMPTIONS = ["numbers are integers (no floats in generated bodies)",
                "metadata.annotations is absent or a mapping (Kubernetes schema); other shapes answer `unmodelled` and are not generated",
-               "annotations under the operator's own configured prefixes are reserved for the operator (a foreign annotation squatting "
-               "there is not an 'ordinary annotation'; it disappears from the essence once the kopf-managed marker is written)",
+               "annotations under a marked prefix are not 'ordinary annotations'; a user's annotation under the operator's own, not yet "
+               "marked prefix is hidden by the first marker write (finding C04-F11, no exemption in the oracle)",
                "MultiDiffBaseStorage/MultiProgressStorage are modelled flat (no Multi inside Multi)",
+               "floats, tuples, non-string keys and non-string annotation values are not generated (diff({'a':1},{'a':1.0}) is () on the real code)",
+               "the last-handled annotation is a stored essence: garbage ('not json', '[]', 'null') makes _detect_causes raise or "
+               "re-create (observation, not generated); an `old` built under another set of handler fields (operator restarted with an "
+               "added @on.field) gives a spurious update (observation)",
                "label_exact/annotation_exact/…_change_detected and own_key_unmarked_invisible_partial assume MetaPlain: no handler "
                "field and no ignored/storage field starts with `metadata` (otherwise oracle + tie only)",
                "the shared-storage sequence oracle compares with a fresh storage per object: it sees state carried between objects, "
@@ -76,12 +82,13 @@ THEOREM_NAMES = [
     "bool_int_witness", "null_absent_witness",
     "status_invisible", "status_removal_invisible", "system_metadata_invisible",
     "marked_annotation_invisible", "prefix_group_invisible", "first_custom_prefix_write_invisible",
-    "first_annotation_write_invisible", "marker_first_write_witness",
-    "own_key_unmarked_invisible", "multi_drs_own_key_invisible", "extra_status_witness",
+    "first_annotation_write_invisible",
+    "kopf_storage_write_invisible_partial", "store_marker_spec", "kopf_prefix_unmarked_witness", "marker_first_write_witness",
+    "own_key_unmarked_invisible_partial", "multi_drs_own_key_invisible", "extra_status_witness",
+    "adoption_loses_last_handled_witness", "touch_field_witness",
     "payload_exact", "essence_injective_on_payload", "essence_wf",
     "change_detected", "payload_change_detected", "label_exact", "annotation_exact",
     "label_change_detected", "ordinary_annotation_change_detected",
-    "keys_depend_only_on_body",
 ]
 
 QUICK_PAIRS, THOROUGH_PAIRS = 5000, 300000
@@ -106,7 +113,7 @@ def strict_eq(x: Any, y: Any) -> bool:
 
 
 def drop_nulls(x: Any) -> Any:
-    """Null-valued object keys are absent keys (Kubernetes never stores them); lists are opaque."""
+    """The equivalence diff_iter actually decides: null-valued object keys dropped (finding C04-F10 when it matters); lists are opaque."""
     if isinstance(x, dict):
         return {k: drop_nulls(v) for k, v in x.items() if v is not None}
     return x
@@ -457,9 +464,9 @@ def gen_progleaf_spec(rng: random.Random) -> dict:
     if rng.random() < 0.3:
         kw["name"] = rng.choice(["kopf", "myop"])
     if rng.random() < 0.3:
-        kw["field"] = rng.choice(["status.{name}.progress", "status.progress", ["status", "p.q"]])
+        kw["field"] = rng.choice(["status.{name}.progress", "status.progress", ["status", "p.q"], "kopf.progress"])
     if rng.random() < 0.3:
-        kw["touch_field"] = rng.choice(["status.{name}.dummy", "status.dummy"])
+        kw["touch_field"] = rng.choice(["status.{name}.dummy", "status.dummy", "kopf.dummy", "dummy"])
     return {"cls": rng.choice(["status", "nowrite"]), "kw": kw}
 
 
@@ -645,6 +652,14 @@ def ordinary_annotation(key: str, annotations: dict, own_prefixes: list[str]) ->
 # evaluation of one case: implementation run, oracle, requests for the model
 
 SIG_F7 = {"site": "diffs.diff_iter", "shape": "bool-int: Python == equates True/1 and False/0"}
+SIG_F10 = {"site": "diffs.diff_iter", "shape": "null-valued key vs absent key: diff_iter(None, None) yields nothing"}
+SIG_N1 = {"site": "StorageKeyMarkingConvention._store_marker",
+          "shape": "no kopf-managed marker for a prefix starting with 'kopf.' other than kopf.zalando.org: another Kopf operator's writes count as changes"}
+SIG_N2 = {"site": "CollisionEvadingConvention.mark_key",
+          "shape": "a change of ownerReferences switches the annotation names: a handled object looks never handled"}
+SIG_N3 = {"site": "StatusProgressStorage.clear", "shape": "touch_field is not removed from the essence"}
+SIG_F11 = {"site": "StorageKeyMarkingConvention._store_marker",
+           "shape": "the first marker write hides a foreign annotation under the operator's own prefix"}
 SIG_F8 = {"site": "DiffBaseStorage.build", "shape": "extra field restores an own storage location"}
 
 
@@ -674,8 +689,13 @@ class Out:
         self.expect.append((what, impl, replay))
 
 
-def _sig_for(a: Any, b: Any, shape: str) -> dict:
-    return SIG_F7 if only_boolint(a, b) else {"site": "diffs.diff_iter", "shape": shape}
+def _sig_for(a: Any, b: Any, shape: str, site: str = "diffs.diff_iter") -> dict:
+    """Classify a literal (strict JSON) mismatch: only null-valued keys (F10), only bool/int (F7), or a new failure."""
+    if equiv_strict(a, b):
+        return SIG_F10
+    if equiv_py(a, b):
+        return SIG_F7
+    return {"site": site, "shape": shape}
 
 
 def eval_diff_case(K: dict, case: dict, out: Out, tags: list[str] | None = None) -> None:
@@ -686,10 +706,10 @@ def eval_diff_case(K: dict, case: dict, out: Out, tags: list[str] | None = None)
     d = canon_items(raw)
     # ---- oracle: whole-object diff ------------------------------------------------------------
     applied = py_apply(d, a)
-    if not equiv_strict(applied, b):
+    if not strict_eq(applied, b):
         out.fail("oracle", "applying diff(old, new) to old does not yield new", dict(replay, diff=d, applied=applied),
                  _sig_for(applied, b, "apply(diff(old,new), old) != new"))
-    if (not d) != equiv_strict(a, b):
+    if (not d) != strict_eq(a, b):
         what = ("diff is empty although old and new differ" if not d else "diff is non-empty although nothing differs")
         out.fail("oracle", what, dict(replay, diff=d), _sig_for(a, b, "empty-iff"))
     for op, p, o, n in d:
@@ -708,14 +728,13 @@ def eval_diff_case(K: dict, case: dict, out: Out, tags: list[str] | None = None)
         out.fail("oracle", "old/new narrowed to the field are not the values at that field", replay,
                  {"site": "dicts.resolve", "shape": "narrowed-values"})
     rapplied = py_apply(r, oa)
-    if not equiv_strict(rapplied, ob):
+    if not strict_eq(rapplied, ob):
         out.fail("oracle", "applying the field-reduced diff to the field's old value does not yield its new value",
                  dict(replay, diff=d, reduced=r, applied=rapplied),
-                 SIG_F7 if only_boolint(rapplied, ob) else
-                 {"site": "diffs.reduce_iter", "shape": "apply(reduce(diff,field), old.field) != new.field"})
-    if (not r) != equiv_strict(oa, ob):
+                 _sig_for(rapplied, ob, "apply(reduce(diff,field), old.field) != new.field", "diffs.reduce_iter"))
+    if (not r) != strict_eq(oa, ob):
         out.fail("oracle", "field-reduced diff is empty iff the field is unchanged — violated", dict(replay, diff=d, reduced=r),
-                 SIG_F7 if only_boolint(oa, ob) else {"site": "diffs.reduce_iter", "shape": "reduced-empty-iff"})
+                 _sig_for(oa, ob, "reduced-empty-iff", "diffs.reduce_iter"))
     # ---- bookkeeping + requests for the model ---------------------------------------------------
     out.evals += 1
     nontrivial = bool(d)
@@ -759,7 +778,10 @@ def gen_ess_case(rng: random.Random) -> dict:
             "wseed": rng.getrandbits(48)}
 
 
-def gen_writes(rng: random.Random) -> list[dict]:
+OTHER_PREFIXES = ["kopf.dev", "kopf.io", "other-op.example.org", "other.kopf.zalando.org", "x.y", "kopf.example.com"]
+
+
+def gen_writes(rng: random.Random, body: dict | None = None, own: list[str] | None = None) -> list[dict]:
     kinds = ["progress.store", "progress.store", "progress.purge", "touch", "touch-clear", "diffbase.store", "diffbase.store",
              "finalizer.add", "finalizer.remove", "sysmeta", "status", "other-operator", "other-operator"]
     ws = []
@@ -777,19 +799,21 @@ def gen_writes(rng: random.Random) -> list[dict]:
         if k == "touch":
             w["value"] = rng.choice(["2020-01-01T00:00:00.123456", "x"])
         if k == "other-operator":
-            # another Kopf-based operator persists its state: under a prefix it marks, or under a sub-domain of the known one
-            w["annotations"] = rng.choice([
-                {"other-op.example.org/kopf-managed": "yes", "other-op.example.org/create_fn": "{\"started\":\"2020\"}"},
-                {"other-op.example.org/kopf-managed": "yes", "other-op.example.org/last-handled-configuration": "{\"spec\":{}}\n"},
-                {"other.kopf.zalando.org/touch-dummy": "2020-01-01"},
-                {"other.kopf.zalando.org/last-handled-configuration": "{\"spec\":{\"x\":1}}\n", "other.kopf.zalando.org/fn": "{}"},
-                {"kopf.zalando.org/some-other-handler": "{\"retries\":1}"}])
+            # another Kopf-based operator (its REAL storages, its own prefix) persists its state on the same object
+            cands = [p for p in OTHER_PREFIXES if p not in (own or [])]
+            w["prefix"] = rng.choice(cands)
+            w["what"] = rng.choice(["store", "touch", "progress", "all"])
         if k == "sysmeta":
             w["edit"] = rng.choice(["resourceVersion", "managedFields", "generation", "deletionTimestamp", "selfLink", "uid"])
         if k == "status":
             w["path"] = rng.choice([["status", "handler_result"], ["status", "kopf", "progress", "fn", "retries"], ["status", "ключ"]])
             w["value"] = rng.choice([{"ok": True}, 1, "s"])
         ws.append(w)
+    meta = (body or {}).get("metadata")
+    if body is not None and body.get("kind") == "ReplicaSet" and isinstance(meta, dict) and rng.random() < 0.5 and \
+            not any(isinstance(o, dict) and o.get("kind") == "Deployment" for o in (meta.get("ownerReferences") or [])
+                    if isinstance(meta.get("ownerReferences"), list)):
+        ws = [{"w": "diffbase.store"}, {"w": "adopt"}] + ws[:2]
     return ws
 
 
@@ -814,8 +838,26 @@ def apply_write(K: dict, ds: Any, ps: Any, body: dict, w: dict, essence: Any) ->
             m[e] = str(m.get(e) or "") + "1"
         return nb, [["metadata", e]]
     if k == "other-operator":
-        pj = {"metadata": {"annotations": dict(w["annotations"])}}
-        return merge_patch(body, pj), leaf_paths(pj)
+        if "annotations" in w:                                   # hand-written corpus form
+            pj = {"metadata": {"annotations": dict(w["annotations"])}}
+            return merge_patch(body, pj), leaf_paths(pj)
+        ods = K["diffbase"].AnnotationsDiffBaseStorage(prefix=w["prefix"])
+        ops = K["progress"].AnnotationsProgressStorage(prefix=w["prefix"])
+        patch = P()
+        if w["what"] in ("store", "all"):
+            ods.store(body=B(body), patch=patch, essence=ops.clear(essence=ods.build(body=B(body))))
+        if w["what"] in ("touch", "all"):
+            ops.touch(body=B(body), patch=patch, value="2020-01-01T00:00:00")
+        if w["what"] in ("progress", "all"):
+            ops.store(key="other_fn", record={"started": "2020-01-01T00:00:00", "retries": 1}, body=B(body), patch=patch)
+        pj = json.loads(json.dumps(dict(patch)))
+        return merge_patch(body, pj), leaf_paths(pj) if pj else []
+    if k == "adopt":
+        nb = copy.deepcopy(body)
+        m = nb.setdefault("metadata", {})
+        m["ownerReferences"] = list(m.get("ownerReferences") or []) + [
+            {"kind": "Deployment", "name": "d", "uid": "d1", "apiVersion": "apps/v1", "controller": True}]
+        return nb, [["metadata", "ownerReferences"]]
     if k == "status":
         patch: Any = {}
         d = patch
@@ -919,6 +961,17 @@ def eval_ess_case(K: dict, case: dict, out: Out) -> None:
             except AttributeError:
                 continue            # non-mapping metadata: `.get` on a scalar — outside the described domain
             out.ask("make_keys", ["C04.keys", mcfg["hashes"], leaf_m["v1"], leaf_m["prefix"], leaf_m["key"], body], ks, replay)
+            meta0 = body.get("metadata")
+            if isinstance(meta0, dict) and isinstance(meta0.get("annotations", {}), dict):
+                mrng = random.Random(case["wseed"] ^ 0x5A)
+                for pfx_ in {leaf_s.prefix, mrng.choice(OTHER_PREFIXES + OWN_PREFIXES)}:
+                    pann = {f"{pfx_}/touch-dummy": "x"}
+                    if mrng.random() < 0.2:
+                        pann[f"{pfx_}/kopf-managed"] = mrng.choice(["yes", None])
+                    mp = K["patches"].Patch({"metadata": {"annotations": dict(pann)}})
+                    leaf_s._store_marker(prefix=pfx_, patch=mp, body=K["bodies"].Body(body))
+                    out.ask("_store_marker", ["C04.marker", pfx_, meta0.get("annotations", {}), pann],
+                            dict(mp["metadata"]["annotations"]), dict(replay, marker_prefix=pfx_, patch_annotations=pann))
     if res[0] != "ok":
         out.keys.add(digest(["ess-err", case["diffbase"], case["progress"], extra, body]))
         return
@@ -940,10 +993,11 @@ def eval_ess_case(K: dict, case: dict, out: Out) -> None:
     # ---- oracle 1: own writes are invisible ------------------------------------------------------
     squatting = [k for k in eanns if any(k.startswith(p + "/") for p in own)]
     cur = body
+    stored = False
     if squatting:
-        out.count("own_writes", "skipped: foreign annotation under an own prefix")
-    else:
-        for w in (case.get("writes") or gen_writes(rng)):
+        out.count("own_writes", "with a foreign annotation under an own prefix")
+    if True:
+        for w in (case.get("writes") or gen_writes(rng, body, own)):
             try:
                 nb, written = apply_write(K, ds, ps, cur, w, E)
             except tuple(ERRS) as ex:
@@ -963,8 +1017,21 @@ def eval_ess_case(K: dict, case: dict, out: Out) -> None:
                 if old is None or K["diffs"].diff(old, res2[1]):
                     bad = True
                     rp["fetched_old"] = old
+            if not bad and w["w"] == "diffbase.store":
+                stored = True
+            if not bad and w["w"] == "adopt" and stored:
+                try:
+                    old = ds.fetch(body=K["bodies"].Body(nb))
+                    old = ps.clear(essence=old) if old is not None else None
+                except (ValueError, AttributeError):
+                    out.count("own_writes", "adopt: the -ofDRS annotation holds garbage (not a stored essence)")
+                    break
+                if old is None or K["diffs"].diff(old, res2[1]):
+                    out.fail("oracle", "after its adoption by a Deployment (ownerReferences only) a handled ReplicaSet has no "
+                                       "last-handled state any more: it is handled as created again", dict(rp, fetched_old=old), SIG_N2)
+                    break
             if bad:
-                sig = SIG_F8 if overlap else classify_own(K, case, ds, nb, w)
+                sig = SIG_F8 if overlap else SIG_F11 if (squatting and w["w"] != "other-operator") else classify_own(K, case, ds, ps, nb, w)
                 who = "another Kopf-based operator's write" if w["w"] == "other-operator" else f"the framework's own write ({w['w']})"
                 out.fail("oracle", f"{who} changes the essence / re-triggers handling", rp, sig)
                 break
@@ -1000,7 +1067,15 @@ def _clear(ps: Any, e: Any) -> list:
 SIG_F9 = {"site": "MultiDiffBaseStorage.build", "shape": "nested build takes the essence for the body: the -ofDRS key mark is lost"}
 
 
-def classify_own(K: dict, case: dict, ds: Any, body: dict, w: dict) -> dict:
+def classify_own(K: dict, case: dict, ds: Any, ps: Any, body: dict, w: dict) -> dict:
+    if w["w"] == "other-operator" and w["prefix"].startswith("kopf.") and not is_marked_prefix(w["prefix"], []):
+        return SIG_N1
+    if w["w"] in ("touch", "touch-clear"):
+        P = K["progress"]
+        leaves = ps.storages if isinstance(ps, P.MultiProgressStorage) else [ps]
+        if any(isinstance(l, P.StatusProgressStorage) and not isinstance(l, P.NoWriteStatusProgressStorage)
+               and l.touch_field[:1] != ("status",) for l in leaves):
+            return SIG_N3
     meta = body.get("metadata") if isinstance(body.get("metadata"), dict) else {}
     owners = meta.get("ownerReferences") or []
     drs = body.get("kind") == "ReplicaSet" and any(isinstance(o, dict) and o.get("kind") == "Deployment" for o in owners)
@@ -1268,16 +1343,20 @@ def _judge_cycle(K: dict, case: dict, ctxv: dict, calls: list, out: Out) -> None
         out.count("cycle_handler", ("field" if f else "whole") + ("" if pos == 0 else " after " +
                   ("field" if parse_field(by_id[calls[pos - 1]["id"]]["field"]) else "whole")))
         bad = None
+        sigk = SIG_KW
         if not strict_eq(c["old"], exp_old) or not strict_eq(c["new"], exp_new):
             bad = "old/new"
-        elif not equiv_strict(py_apply(c["diff"], c["old"]), c["new"]) and not only_boolint(py_apply(c["diff"], c["old"]), c["new"]):
+        elif not strict_eq(py_apply(c["diff"], c["old"]), c["new"]):
             bad = "diff does not lead from old to new"
-        elif (not c["diff"]) != equiv_strict(c["old"], c["new"]) and not only_boolint(c["old"], c["new"]):
+            sigk = _sig_for(py_apply(c["diff"], c["old"]), c["new"], SIG_KW["shape"], SIG_KW["site"])
+        elif (not c["diff"]) != strict_eq(c["old"], c["new"]):
             bad = "diff empty iff unchanged"
+            sigk = _sig_for(c["old"], c["new"], SIG_KW["shape"], SIG_KW["site"])
         if bad:
             out.fail("oracle", f"handler {c['id']} (field={h['field']!r}, #{pos + 1} of the cycle, lifecycle {case['lifecycle']}) "
-                               f"received wrong kwargs: {bad}", rp, SIG_KW)
-            return
+                               f"received wrong kwargs: {bad}", rp, sigk)
+            if sigk == SIG_KW:
+                return
         out.ask("kwargs diff of a handler vs. reduce of the whole diff", ["C04.reduce", whole, f], c["diff"], rp)
     if calls:
         out.keys.add(digest(["cycle", case["handlers"], case["lifecycle"], case["old"], case["new"]]))
